@@ -120,6 +120,11 @@ def _circ():
     return a
 
 
+def _with_lock(o):
+    o.lock = threading.Lock()
+    return o
+
+
 ARGS = {
     # JSON-native, equal after a round trip
     "int": lambda: 1, "neg": lambda: -7, "zero": lambda: 0, "big": lambda: 2**70, "big400": lambda: 10**400,
@@ -145,6 +150,8 @@ ARGS = {
     # unpicklable
     "lambda": lambda: (lambda: 0), "lock": lambda: threading.Lock(), "localobj": lambda: LOCAL_OBJ(),
     "gen": lambda: (i for i in range(2)), "listlambda": lambda: [1, (lambda: 0)], "module": lambda: json,
+    # unpicklable and un-repr-able at once (text form on the pickle path: str(), or the "<Unrepresentable" placeholder)
+    "badreprlock": lambda: _with_lock(ZOO.BadRepr()), "onlystrlock": lambda: _with_lock(ZOO.OnlyStr()),
     # lone surrogates (D9): accepted by Python's json, rejected by pydantic's UTF-8 encoder
     "surr": lambda: "\ud800", "surrnest": lambda: ["a", ["\udfff"]], "surrval": lambda: {"k": "a\udc80b"},
     "surrtuple": lambda: ("\ud800",),
